@@ -262,6 +262,7 @@ def run(chk):
     hunt3_rules(chk, repo)
     hunt4_rules(chk, repo)
     hunt5_rules(chk, repo)
+    round7_rules(chk, repo)
 
 
 def identity_rules(chk, repo):
@@ -340,6 +341,40 @@ def identity_rules(chk, repo):
         else:
             chk.ok("C16.maxage", c, "the Max-Age value is bounded before it meets float arithmetic")
     chk.expect_count("C16.maxage", n_m, 1, "Max-Age conversions")
+
+
+def round7_rules(chk, repo):
+    """Rule written after seeding round 7 (seed C16-7): the expiry heap is a heap whenever it is read.
+    _do_expiration() pops entries from the top while they are due and stops at the first that is not: an entry with an earlier deadline that
+    sits below a later one is never reached, its cookie is still attached after it expired.  So the list is changed only through heapq, or a
+    rebuild is followed by heapq.heapify() before the function is left."""
+    cj = repo.cls(MOD, CJ)
+    n = 0
+    for name, fn in cj.methods.items():
+        g = None
+        for a in ast.walk(fn.node):
+            tgt = None
+            if isinstance(a, ast.Assign) and any(norm.raw(t) == "self._expire_heap" for t in a.targets):
+                if name == "__init__" or (isinstance(a.value, ast.List) and not a.value.elts):
+                    continue
+                tgt = a
+            elif isinstance(a, ast.Call) and isinstance(a.func, ast.Attribute) and norm.raw(a.func.value) == "self._expire_heap" and a.func.attr in ("append", "remove", "insert", "pop", "sort", "extend", "reverse"):
+                tgt = K.stmt_of(a)
+            elif isinstance(a, ast.Delete) and any("self._expire_heap" in norm.raw(t) for t in a.targets):
+                tgt = a
+            if tgt is None:
+                continue
+            n += 1
+            g = g or cfg_of(fn.node)
+            tn = [x for x in g.nodes if x.in_finally_copy is None and x.ast is tgt]
+            heapify = [x for x in g.nodes if x.kind == "stmt" and isinstance(getattr(x, "ast", None), ast.AST) and K.node_has(x, "heapq.heapify(self._expire_heap)")]
+            p_ = g.find_path(tn, lambda x: x.kind == "exit" or (x.kind == "stmt" and isinstance(x.ast, ast.Return)), lambda x: x in heapify, EXPLICIT) if tn else None
+            if tn and p_ is None:
+                chk.ok("C16.heap", tgt, f"{CJ}.{name}(): the rebuilt expiry list is heapified before the function is left")
+            else:
+                chk.violation("C16.heap", tgt, K.short(tgt), "heapq.heapify(self._expire_heap) after the rebuild (or heapq.heappush / heappop only)",
+                              f"{CJ}.{name}() changes the expiry list without restoring the heap order: filtering a heap array can leave a later deadline above an earlier one, _do_expiration() stops at the first entry that is not due, and the cookie below it is still sent after it expired (clear_domain() of a short-lived cookie, then a request after the medium deadline)")
+    chk.expect_count("C16.heap", n, 1, "places that rebuild or edit the expiry list without heapq")
 
 
 def hunt5_rules(chk, repo):
